@@ -168,8 +168,10 @@ EntryResults(body, doc) ==
 
 -----------------------------------------------------------------------------
 (* Condition *)
+RECURSIVE OperandVal(_, _)
 OperandVal(o, doc) ==
-  IF o.t = "const" THEN CNum(o.n)
+  IF o.t = "par" THEN OperandVal(o.e, doc)
+  ELSE IF o.t = "const" THEN CNum(o.n)
   ELSE LET fv == Find(doc, o.f) IN
        IF o.k = "int" THEN IntCast(fv) ELSE IF o.k = "flt" THEN FltCast(fv)
        ELSE IF IsNone(fv) THEN CMiss
